@@ -101,6 +101,9 @@ def check(case):
         hostile_seen = False
         failing = 0
         ran_object = runcheck.ran_object_lookup(run)
+        floors = runcheck.status_floor(ref, prog)
+        all_names = [i["name"] for _f, i in runcheck.instances(prog)]
+        names_unique = len(set(all_names)) == len(all_names)
         for fi, fobj in enumerate(run.features):
             base = "TESTS-f%d.xml" % fi
             scenarios = [ran_object(s) for s in fobj.walk_scenarios()]
@@ -125,6 +128,12 @@ def check(case):
                     res.fail("C16.testcase-name", "%s: testcase name %r, scenario name %r" % (base, c.getAttribute("name"), s.name))
                 if not valid_xml_text(s.name):
                     hostile_seen = True
+            # -- what the RUN demands (reference model), whatever behave's model says afterwards
+            for c, s in zip(cases, expect):
+                want_class = floors.get(s.name)
+                if want_class and names_unique and runcheck.status_class(c.getAttribute("status")) != want_class:
+                    res.fail("C16.testcase-status-vs-run", "%s: scenario %r ended in the %s class in the run (reference model) "
+                             "but its testcase says status=%r" % (base, s.name, want_class, c.getAttribute("status")))
             # -- counters
             def count(tag):
                 return sum(1 for c in cases for n in c.childNodes
